@@ -295,59 +295,121 @@ macro_rules! c09_hysteresis_step {
     };
 }
 
+// @family prop=C09 name=c09_window_survives_scale_edits macro=c09_window_survives_scale_edits n=11 quick=0,5 seeded=1 thorough=all timeout=2400 unwindset=find_nearest_note:4,13
+// @about public API only, slice k = octave of the FIRST input: any scale; convert(v1) with v1 in octave k; then an arbitrary scale edit -- forbid(any slice of 0..=12 notes) followed by allow(any slice of 0..=12 notes), incl. redundant edits -- then convert(v2): if the note reported first is still allowed after the edit and v2 lies strictly inside its bucket widened by 0.1 semitone each side (2 microvolts inside the edges), the second conversion reports the same note and stairstep: a scale edit that leaves the current note allowed does not reset the hysteresis
+macro_rules! c09_window_survives_scale_edits {
+    ($name:ident, $k:expr) => {
+        #[kani::proof]
+        #[kani::unwind(14)]
+        fn $name() {
+            let mut q = any_quantizer(false);
+            let v1: f32 = kani::any();
+            let k: u32 = $k;
+            if k == 10 {
+                kani::assume(v1 >= 10.0 && v1 <= 11.0);
+            } else {
+                kani::assume(v1 >= k as f32 && v1 < (k + 1) as f32);
+            }
+            let c1 = q.convert(v1);
+            let n1 = c1.note_num;
+            let (f_notes, f_len) = any_notes();
+            let (a_notes, a_len) = any_notes();
+            if f_len >= 1 {
+                q.forbid(&f_notes[..f_len]);
+            }
+            q.allow(&a_notes[..a_len]);
+            let v2: f32 = kani::any();
+            let s = v2 as f64 * 12.0;
+            let inside = s > n1 as f64 - 0.1 + 2.4e-5 && s < n1 as f64 + 1.1 - 2.4e-5;
+            kani::assume(inside);
+            let still = q.is_allowed(Note::new(n1 % 12));
+            let c2 = q.convert(v2);
+            if still {
+                vassert!(c2.note_num == n1, "C09/scale-edit/inside-window-keeps-note-while-it-stays-allowed");
+                vassert!(c2.stairstep == c1.stairstep, "C09/scale-edit/inside-window-keeps-stairstep");
+            } else {
+                vassert!(c2.note_num % 12 != n1 % 12, "C09/scale-edit/forbidden-note-is-dropped");
+            }
+            vcover!(still && a_len >= 1 && (s < n1 as f64 || s > n1 as f64 + 1.0), "witness: allow() call, input in the hysteresis margin");
+            vcover!(!still, "witness: current note forbidden by the edit");
+        }
+    };
+}
+
 // =====================================================================
 // C19  record consistency
 // =====================================================================
 
-// @harness prop=C19 tier=quick timeout=1500 unwindset=find_nearest_note:4,13
-// @about one conversion from any Inv_q state (with or without history), any scale, any f32 v: stairstep == note/12 (f32 division, exactly); for finite v in [0,10]: |stairstep + fraction - v| <= 2 ulp(v) (ulp of 1.0 below 1 V); outside [0,10]: stairstep + fraction reproduces v or its clamped value within the same tolerance; chromatic scale without history: 0 <= fraction < 1 semitone (+-10 microvolts, the quantizer's stated tie tolerance); when the window kept the previous note: -0.1 <= fraction <= 1.1 semitones (+-10 microvolts)
-#[kani::proof]
-#[kani::unwind(14)]
-fn c19_record_consistency() {
-    let hist: bool = kani::any();
-    let mut q = any_quantizer(hist);
-    let chromatic = q.allowed == 0x0fff;
-    let n0 = q.cached_conversion.note_num;
-    let s0 = q.cached_conversion.stairstep;
-    let still_allowed = hist && pitch_class_allowed(q.allowed, n0);
-    let v: f32 = kani::any();
-    let c = q.convert(v);
-    vassert!(c.stairstep == c.note_num as f32 / 12.0_f32, "C19/stairstep-is-note/12");
-    let semi = 1.0_f64 / 12.0;
-    if v.is_finite() {
-        let sum = c.stairstep + c.fraction;
-        let clamped = if v < 0.0 { 0.0_f32 } else if v > 10.0 { 10.0 } else { v };
-        let tol = |t: f32| -> f64 {
-            let a = if t < 0.0 { -t } else { t };
-            let u = if a < 1.0 { 1.1920929e-7_f64 } else { (f32::from_bits((a.to_bits() & 0x7f80_0000)) as f64) * 1.1920929e-7 };
-            2.0 * u
-        };
-        let e_in = (sum as f64 - v as f64).abs();
-        let e_cl = (sum as f64 - clamped as f64).abs();
-        if v >= 0.0 && v <= 10.0 {
-            vassert!(e_in <= tol(v), "C19/stairstep+fraction-reproduces-input-within-2ulp");
-        } else {
-            vassert!(e_in <= tol(v) || e_cl <= tol(clamped), "C19/out-of-range-reproduces-input-or-clamped");
+// @family prop=C19 name=c19_record_consistency macro=c19_record_consistency n=11 quick=0,1,9,10 seeded=1 thorough=all timeout=2400 unwindset=find_nearest_note:4,13
+// @about octave slice k of the input (as c09_hysteresis_step): one conversion from any Inv_q state (with or without history), any scale, any f32 v in the slice: stairstep == note/12 (f32 division, exactly); for finite v in [0,10]: |stairstep + fraction - v| <= 2 ulp(v) (ulp of 1.0 below 1 V); outside [0,10]: stairstep + fraction reproduces v or its clamped value within the same tolerance; chromatic scale without history: 0 <= fraction < 1 semitone (+-10 microvolts, the quantizer's stated tie tolerance); whenever the record differs from the history-free record of a second real quantizer (i.e. the hysteresis window kept the previous note): the kept note is the cached one and -0.1 <= fraction <= 1.1 semitones (+-10 microvolts)
+macro_rules! c19_record_consistency {
+    ($name:ident, $k:expr) => {
+        #[kani::proof]
+        #[kani::unwind(14)]
+        fn $name() {
+            let hist: bool = kani::any();
+            let mut q = any_quantizer(hist);
+            let chromatic = q.allowed == 0x0fff;
+            let n0 = q.cached_conversion.note_num;
+            let s0 = q.cached_conversion.stairstep;
+            let still_allowed = hist && pitch_class_allowed(q.allowed, n0);
+            let v: f32 = kani::any();
+            let k: u32 = $k;
+            if k == 0 {
+                kani::assume(!(v >= 1.0));
+            } else if k == 10 {
+                kani::assume(v >= 10.0);
+            } else {
+                kani::assume(v >= k as f32 && v < (k + 1) as f32);
+            }
+            let mut fresh = Quantizer::new();
+            fresh.allowed = q.allowed;
+            let c = q.convert(v);
+            let f = fresh.convert(v);
+            vassert!(c.stairstep == c.note_num as f32 / 12.0_f32, "C19/stairstep-is-note/12");
+            // the record differs from the history-free one only when the hysteresis window kept the previous note
+            let differs = c.note_num != f.note_num || (c.fraction != f.fraction && !v.is_nan());
+            if differs {
+                vassert!(still_allowed && c.note_num == n0, "C19/record-differs-from-history-free-only-by-keeping-the-cached-note");
+                vassert!(c.fraction as f64 >= -0.1 / 12.0 - 1.0e-5 && c.fraction as f64 <= 1.1 / 12.0 + 1.0e-5,
+                    "C19/kept-note-fraction-in-[-0.1,1.1]-semitones");
+            }
+            let semi = 1.0_f64 / 12.0;
+            if v.is_finite() {
+                let sum = c.stairstep + c.fraction;
+                let clamped = if v < 0.0 { 0.0_f32 } else if v > 10.0 { 10.0 } else { v };
+                let tol = |t: f32| -> f64 {
+                    let a = if t < 0.0 { -t } else { t };
+                    let u = if a < 1.0 { 1.1920929e-7_f64 } else { (f32::from_bits((a.to_bits() & 0x7f80_0000)) as f64) * 1.1920929e-7 };
+                    2.0 * u
+                };
+                let e_in = (sum as f64 - v as f64).abs();
+                let e_cl = (sum as f64 - clamped as f64).abs();
+                if v >= 0.0 && v <= 10.0 {
+                    vassert!(e_in <= tol(v), "C19/stairstep+fraction-reproduces-input-within-2ulp");
+                } else {
+                    vassert!(e_in <= tol(v) || e_cl <= tol(clamped), "C19/out-of-range-reproduces-input-or-clamped");
+                }
+                if chromatic && !hist && v >= 0.0 && v <= 10.0 {
+                    vassert!(c.fraction as f64 >= -1.0e-5 && (c.fraction as f64) < semi + 1.0e-5, "C19/chromatic-fraction-in-[0,1)-semitone");
+                }
+                // "the window kept the previous note": v strictly inside the widened bucket (2 uV inside its edges, so that
+                // the f32 rounding of the edges cannot matter); at the very edge the history-free path may return the same
+                // note by the nearest-note rule, with a fraction computed from the clamped input
+                let kept = still_allowed && c.note_num == n0
+                    && (v as f64) > (n0 as f64 - 0.1) / 12.0 + 2.0e-6 && (v as f64) < (n0 as f64 + 1.1) / 12.0 - 2.0e-6;
+                if kept {
+                    // 10 microvolts: the f32 grid at 10 V is about 1 microvolt and stairstep, window edge and
+                    // difference are each rounded to it
+                    vassert!(c.fraction as f64 >= -0.1 * semi - 1.0e-5 && c.fraction as f64 <= 1.1 * semi + 1.0e-5,
+                        "C19/kept-note-fraction-in-[-0.1,1.1]-semitones");
+                }
+            }
+            vcover!(differs, "witness: hysteresis overrides the history-free record");
+            vcover!(chromatic && !hist, "witness: chromatic, no history");
+            vcover!(hist && !still_allowed, "witness: cached note no longer allowed");
         }
-        if chromatic && !hist && v >= 0.0 && v <= 10.0 {
-            vassert!(c.fraction as f64 >= -1.0e-5 && (c.fraction as f64) < semi + 1.0e-5, "C19/chromatic-fraction-in-[0,1)-semitone");
-        }
-        // "the window kept the previous note": v strictly inside the widened bucket (2 uV inside its edges, so that
-        // the f32 rounding of the edges cannot matter); at the very edge the history-free path may return the same
-        // note by the nearest-note rule, with a fraction computed from the clamped input
-        let kept = still_allowed && c.note_num == n0
-            && (v as f64) > (n0 as f64 - 0.1) / 12.0 + 2.0e-6 && (v as f64) < (n0 as f64 + 1.1) / 12.0 - 2.0e-6;
-        if kept {
-            // 10 microvolts: the f32 grid at 10 V is about 1 microvolt and stairstep, window edge and
-            // difference are each rounded to it
-            vassert!(c.fraction as f64 >= -0.1 * semi - 1.0e-5 && c.fraction as f64 <= 1.1 * semi + 1.0e-5,
-                "C19/kept-note-fraction-in-[-0.1,1.1]-semitones");
-        }
-    }
-    vcover!(hist && still_allowed && c.note_num == n0 && c.fraction < 0.0, "witness: negative fraction inside the window");
-    vcover!(chromatic && !hist && v > 9.0 && v < 10.0, "witness: chromatic top octave");
-    vcover!(v > 10.0 && v.is_finite(), "witness: above range");
-    vcover!(v < 0.0, "witness: below range");
+    };
 }
 
 // =====================================================================
